@@ -194,7 +194,9 @@ func solveOne(o *Obligation, opt SolveOpts) {
 	_ = lastOut
 	o.Time = total
 	if o.ok() {
-		os.Remove(file)
+		if os.Getenv("GOVC_KEEP") == "" {
+			os.Remove(file)
+		}
 	}
 }
 
